@@ -37,6 +37,12 @@ Theorem C12_reorder_bystanders :
 Proof. exact (fun fs r => conj (reorder_f_bystanders fs r) (reorder_e_bystanders fs r)). Qed.
 Print Assumptions C12_reorder_bystanders.
 
+(* reorder -f a,b,...: the named fields that are present come first, in argument order, then the others in record order *)
+Theorem C12_reorder_f_named_first_in_argument_order :
+  forall fs r, NoDup fs -> wf r -> reorder_f fs r = pick fs r ++ filter (unnamed fs) r.
+Proof. exact reorder_f_spec. Qed.
+Print Assumptions C12_reorder_f_named_first_in_argument_order.
+
 (* ---- rename: fields that are neither an old nor a new name keep name, value and relative order (any name list);
    rename a,b then b,a is the identity when b is new *)
 Theorem C12_rename_bystanders :
@@ -127,6 +133,55 @@ Theorem C12_split_join_inverse : forall sep s, join_with [sep] (split1 sep s) = 
 Proof. exact join_split1. Qed.
 Print Assumptions C12_split_join_inverse.
 
+(* ---- label: the first n fields take the new names (n = min of the two lengths), values and order kept; later fields
+   are kept unless their name is one of the new names just given (they would collide) *)
+Theorem C12_label_renames_first_n :
+  forall names r, NoDup names -> wf r ->
+    let k := Nat.min (List.length names) (List.length r) in
+    label names r = combine (firstn k names) (values (firstn k r))
+                    ++ filter (fun kv => negb (mem (fst kv) (firstn k names))) (skipn k r).
+Proof. exact label_spec. Qed.
+Print Assumptions C12_label_renames_first_n.
+
+(* ---- nest across fields: explode replaces the field in place by f_1..f_n and touches nothing else; implode undoes it
+   when no other field is named f_<digits> (and, with f first in the record, no second field f exists) *)
+Theorem C12_nest_explode_fields_in_place :
+  forall f sep pre v post, ~ In f (keys pre) ->
+    explode_fields f sep (pre ++ (f, v) :: post) = pre ++ number_from f 1 (split1 sep v) ++ post.
+Proof. exact explode_fields_shape. Qed.
+Print Assumptions C12_nest_explode_fields_in_place.
+
+Theorem C12_nest_explode_fields_absent : forall f sep r, ~ In f (keys r) -> explode_fields f sep r = r.
+Proof. exact explode_fields_absent. Qed.
+Print Assumptions C12_nest_explode_fields_absent.
+
+Theorem C12_nest_implode_explode_fields :
+  forall f sep pre v post,
+    ~ In f (keys pre) -> no_suffix_match f pre -> no_suffix_match f post -> (pre = [] -> ~ In f (keys post)) ->
+    implode_fields f sep (explode_fields f sep (pre ++ (f, v) :: post)) = pre ++ (f, v) :: post.
+Proof. exact explode_implode_fields. Qed.
+Print Assumptions C12_nest_implode_explode_fields.
+
+(* ---- reshape: wide-to-long then long-to-wide gives the record back with the reshaped fields moved to the end
+   (others first, then the -i fields that were present, in -i order): the same fields, and the record itself when
+   those fields were its last ones in that order.  Side conditions: the key/value column names are new and distinct,
+   at least one -i field is present.  (long-to-wide then wide-to-long, the regex form and multi-record streams:
+   correspondence and oracle only) *)
+Theorem C12_reshape_wide_long_wide :
+  forall ins ko vo r,
+    wf r -> ~ In ko (keys r) -> ~ In vo (keys r) -> ko <> vo -> w2l_pairs ins r <> [] ->
+    reshape_l2w ko vo (reshape_w2l ins ko vo r) = [w2l_others ins r ++ w2l_pairs ins r].
+Proof. exact reshape_w2l_l2w. Qed.
+Print Assumptions C12_reshape_wide_long_wide.
+
+(* ---- template: exactly the template names (first occurrence order), record values where present, fill elsewhere *)
+Theorem C12_template_names_and_values :
+  forall fs fill r,
+    keys (template fs fill r) = first_seen fs
+    /\ forall k, get k (template fs fill r) = if mem k fs then Some (getd k r fill) else None.
+Proof. exact (fun fs fill r => conj (template_keys fs fill r) (template_get fs fill r)). Qed.
+Print Assumptions C12_template_names_and_values.
+
 (* non-vacuity: concrete non-trivial inputs meet the hypotheses *)
 Example C12_nonvacuous :
   let r := [(B "a", B "1"); (B "x", B "p;q;r"); (B "b", B ""); (B "a.b", B "3")] in
@@ -137,6 +192,12 @@ Example C12_nonvacuous :
   /\ reorder_f [B "b"; B "x"] r = [(B "b", B ""); (B "x", B "p;q;r"); (B "a", B "1"); (B "a.b", B "3")]
   /\ rename [B "a"; B "new"] r = [(B "new", B "1"); (B "x", B "p;q;r"); (B "b", B ""); (B "a.b", B "3")]
   /\ get (B "x") r = Some (B "p;q;r")
+  /\ label [B "n1"; B "b"] r = [(B "n1", B "1"); (B "b", B "p;q;r"); (B "a.b", B "3")]
+  /\ explode_fields (B "x") ";" r = [(B "a", B "1"); (B "x_1", B "p"); (B "x_2", B "q"); (B "x_3", B "r"); (B "b", B ""); (B "a.b", B "3")]
+  /\ implode_fields (B "x") ";" (explode_fields (B "x") ";" r) = r
+  /\ w2l_pairs [B "x"; B "b"] r = [(B "x", B "p;q;r"); (B "b", B "")]
+  /\ reshape_l2w (B "K") (B "V") (reshape_w2l [B "x"; B "b"] (B "K") (B "V") r)
+     = [[(B "a", B "1"); (B "a.b", B "3"); (B "x", B "p;q;r"); (B "b", B "")]]
   /\ List.length (explode_records (B "x") ";" r) = 3%nat
   /\ regularize [[(B "a", B "1"); (B "b", B "2")]; s] = [[(B "a", B "1"); (B "b", B "2")]; [(B "a", B "8"); (B "b", B "7")]]
   /\ unsparsify (B "-") [s; r] = [[(B "b", B "7"); (B "a", B "8"); (B "x", B "-"); (B "a.b", B "-")];
